@@ -735,6 +735,9 @@ func (x *FnExec) instr(fr *frame, n *node, in ssa.Instruction) error {
 			x.nonNil(reach, addr, "*"+in.Addr.Name(), in.Pos())
 		}
 		x.storeGuards(fr, n, in, a, v)
+		if len(a.Path) == 0 && (a.Root == rootElem || (a.Root == rootField && a.Idx != "whole")) {
+			x.proveCellInv(fr, st, reach, a.Heap, x.scalar(v), a.T, in.Pos())
+		}
 		x.storeAddr(st, a, x.scalar(v))
 	case *ssa.Convert:
 		env[in] = x.convert(x.value(fr, env, in.X), in.X.Type(), in.Type(), reach, in)
@@ -816,6 +819,10 @@ func (x *FnExec) instr(fr *frame, n *node, in ssa.Instruction) error {
 		v := x.value(fr, env, in.Value)
 		mt := in.Map.Type().Underlying().(*types.Map)
 		x.panicObl("nilmap", reach, not(eq(m.S, "nil")), "assignment to entry in nil map "+in.Map.Name(), in.Pos())
+		{
+			_, mv, _, _, _ := x.mapHeaps(mt)
+			x.proveCellInv(fr, st, reach, mv, x.scalar(v), mt.Elem(), in.Pos())
+		}
 		x.mapStore(st, mt, m.S, x.scalar(k), x.scalar(v))
 	case *ssa.Range:
 		v := x.value(fr, env, in.X)
@@ -988,6 +995,11 @@ func (x *FnExec) lookup(fr *frame, n *node, in *ssa.Lookup) error {
 		val := x.q.define(in.Name(), x.q.sortOf(xt.Elem()), ite(has, raw, x.q.zero(xt.Elem())))
 		x.assumeValid(reach, val, xt.Elem())
 		x.assumeAllocT(st, reach, val, xt.Elem(), 1)
+		{
+			_, mv, _, _, _ := x.mapHeaps(xt)
+			// only values actually present obey the invariant (absent keys read as the zero value)
+			x.assumeCellInv(fr, st, and(reach, has), mv, raw, xt.Elem())
+		}
 		// len > 0 if present
 		x.q.assert(implies(has, x.cmp(">", x.mapLen(st, xt, m.S), x.q.intLit(0, nil), types.Typ[types.Int])))
 		if in.CommaOk {
@@ -1045,6 +1057,10 @@ func (x *FnExec) next(fr *frame, n *node, in *ssa.Next) error {
 	x.assumeValid(reach, val, mt.Elem())
 	x.assumeAllocT(st, reach, val, mt.Elem(), 1)
 	x.assumeAllocT(st, reach, k, mt.Key(), 1)
+	{
+		_, mv, _, _, _ := x.mapHeaps(mt)
+		x.assumeCellInv(fr, st, and(reach, okv), mv, val, mt.Elem())
+	}
 	env[in] = Val{T: in.Type(), Tuple: []Val{{S: okv, T: types.Typ[types.Bool]}, {S: k, T: mt.Key()}, {S: val, T: mt.Elem()}}}
 	return nil
 }
@@ -1071,6 +1087,9 @@ func (x *FnExec) unop(fr *frame, n *node, in *ssa.UnOp) error {
 			x.assumeAllocT(&State{heap: map[string]string{}}, reach, nm, t, 1)
 		} else {
 			x.assumeAllocT(st, reach, nm, t, 1)
+		}
+		if len(a.Path) == 0 && (a.Root == rootElem || (a.Root == rootField && a.Idx != "whole")) {
+			x.assumeCellInv(fr, st, reach, a.Heap, nm, t)
 		}
 		env[in] = Val{S: nm, T: t}
 	case token.NOT:
